@@ -8,7 +8,7 @@ from ..pyutil import parents
 
 META = {
     'title': 'The way a resource is supplied does not change what gets stored',
-    'technique': 'sibling cross-check of the two entry points; skip dominance; input-alias mutation analysis (typed alias taint); open-mode census',
+    'technique': 'sibling cross-check of the two entry points on their effect summaries; skip dominance; input-alias mutation analysis (typed alias taint); open-mode census',
     'explanation': (
         'Route equivalence (decompression, tar extraction, package detection) is library behaviour over file contents and is NOT '
         'decided. Decided: R1 the two entry points add()->_add_lmf and add_lexical_resource perform the same sequence - emptiness '
